@@ -491,7 +491,7 @@ def wire_cases(fam, rng: random.Random, n: int, extra=()):
 class Wire(Family):
     realtime = True     # runs on the wall clock (sockets, threads): a failure is re-run once before it counts (core.run_family)
     name = "wire"
-    quick_n = 260
+    quick_n = 300
     thorough_n = 4000
     parallel = False
 
